@@ -34,7 +34,14 @@ fn decode_stream(chunks: Vec<Vec<u8>>) -> (Vec<Vec<u8>>, Option<String>) {
     let mut out = Vec::new();
     loop {
         match run_ready(fr.next(), 64) {
-            Some(Some(Ok(m))) => out.push(m.data),
+            Some(Some(Ok(m))) => {
+                out.push(m.data);
+                // no case encodes more than a handful of messages: a decoder that keeps
+                // producing them is not consuming its input
+                if out.len() > 64 {
+                    return (out, Some("runaway: the decoder keeps producing messages without consuming input".into()));
+                }
+            }
             Some(Some(Err(e))) => return (out, Some(e.to_string())),
             Some(None) => return (out, None),
             None => return (out, Some("pending forever".into())),
@@ -109,6 +116,7 @@ fn hostile_case(bytes: &[u8]) -> Result<&'static str, String> {
                 };
             }
             match r {
+                Ok(Some(_)) if before - src.len() != n + l as usize => Err(format!("consumed-wrong-length :: frame of {n}+{l} bytes decoded but {} bytes consumed", before - src.len())),
                 Ok(Some(_)) => Ok("decoded"),
                 Err(_) => Ok("reject-body"),
                 Ok(None) => Err(format!("stalled-complete :: complete frame (len {l}) not decoded")),
